@@ -8,7 +8,7 @@ import genchart
 import ifam
 import iofam
 import sx
-from common import (COQ, Verdict, coq_eval_files, gen_dir, load_known_findings, parse_pairs, proof_stage,
+from common import (REPO, COQ, Verdict, coq_eval_files, gen_dir, load_known_findings, parse_pairs, proof_stage,
                     repo_blob_ids, write_evidence, TRUSTED_BASE, cbool)
 
 PROP = 'C11'
@@ -120,7 +120,7 @@ def main(tier, seed):
     # shipped charts
     import glob
     import sismic.io
-    for path in sorted(glob.glob('/repo/tests/yaml/*.yaml') + glob.glob('/repo/docs/examples/*/*.yaml')):
+    for path in sorted(glob.glob(REPO + '/tests/yaml/*.yaml') + glob.glob(REPO + '/docs/examples/*/*.yaml')):
         try:
             sc = sismic.io.import_from_yaml(filepath=path)
         except Exception:  # noqa
